@@ -99,6 +99,12 @@ CHECKS['C15'] = dict(
     note='ASCII input; dynamic lexers accept str and bytes only; an unexpected $END on a window without tokens carries default coordinates (exempt)',
     ref='6/C15')
 
+CHECKS['C16'] = dict(
+    technique='TLA+ machines of the four transformer traversals model-checked against the bottom-up fold over all ordered trees <=6 (8) nodes (TLC) + trace validation of real results and callback logs of the embedded transformer and the four classes against FoldT of the plain tree',
+    text='TLC proves for every ordered tree up to the bound that Transformer/_InPlaceRecursive (recursion), _NonRecursive (reversed postfix + value stack) and _InPlace (iter_subtrees order) return the fold and run each callback exactly once, children before parents; on random EBNF LALR grammars with symbolic pure callbacks (plain, inline, tree and wrapper v_args styles; the node data is part of the value) on random subsets of rules, aliases and named terminals, TLC computes FoldT of the plain parse tree and judges the value and the callback log of Lark(..., transformer=T).parse and of the four classes.',
+    note='callbacks only where the statement allows them; no Discard, no meta',
+    ref='6/C16')
+
 NOT_APPLICABLE = []
 
 
